@@ -108,13 +108,18 @@ class Run:
 
     def generate(self):
         self.functions = []
+        only = os.environ.get('VERIF_ONLY_FUNC')      # development aid: verify a single function (never used by the registered commands)
         for c in self.R.contracts.values():
+            if only and only not in c.qualname:
+                continue
             if self.prop in c.props and c.verify:
                 f = self.repo.func(c.module, c.qualname)
                 self.ex.verify_function(c, self.prop)
                 self.functions.append({'function': '%s:%s' % (c.module, c.qualname),
                                        'lines': list(f.lines), 'sha256': f.sha[:16]})
         for lem in self.R.lemmas:
+            if only:
+                break
             if self.prop in lem.props:
                 self.ex.verify_lemma(lem, self.prop)
         if hasattr(self.mod, 'static_checks'):
